@@ -37,6 +37,8 @@ def run(ck: Check, prog: Program) -> None:
 
 
 MUTANTS = [
+    dict(name='chain-folded-over-the-constructor-argument', file='pjrpc/server/dispatcher.py', all=True,
+         find='for middleware in reversed(self._middlewares):', replace='for middleware in reversed(tuple(middlewares)):', expect='MW-FOLD'),
     dict(name='drop-reversed', file='pjrpc/server/dispatcher.py', nth=0,
          find='for middleware in reversed(self._middlewares):', replace='for middleware in self._middlewares:', expect='MW-FOLD'),
     dict(name='per-code-before-generic', file='pjrpc/server/dispatcher.py', nth=1,
